@@ -10,7 +10,7 @@ open Snmp Snmp.Usm
 theorem accepted_steps (cr : Crypto) (c : Creds) (im : InMsg) (s : Spec.ScopedPdu)
     (h : processIncoming cr c im = .ok s) :
     checkUser c im.m = .ok () ∧ verifyAuth cr c im = .ok () ∧ extractScoped cr c im.m = .ok s ∧
-    hasUsmError s.pdu.varbinds = false ∧ checkLevel c im.m = .ok () := by
+    hasUsmError s.pdu = false ∧ checkLevel c im.m = .ok () := by
   unfold processIncoming at h
   cases h0 : shapeCheck im.m with
   | error e => simp [h0] at h
@@ -26,7 +26,7 @@ theorem accepted_steps (cr : Crypto) (c : Creds) (im : InMsg) (s : Spec.ScopedPd
       | error e => simp [h1, h2, h3] at h
       | ok s' =>
         simp only [h1, h2, h3] at h
-        by_cases he : hasUsmError s'.pdu.varbinds = true
+        by_cases he : hasUsmError s'.pdu = true
         · simp [he] at h
         · simp only [he, Bool.false_eq_true, ↓reduceIte] at h
           cases h4 : checkLevel c im.m with
@@ -124,7 +124,7 @@ theorem C09_report_only_error (cr : Crypto) (c : Creds) (pw : Bytes) (hc : c.aut
 
 /-- Reports about USM errors surface as errors even when they are authentic. -/
 theorem C09_usm_report_is_error (cr : Crypto) (c : Creds) (im : InMsg) (s : Spec.ScopedPdu)
-    (hx : extractScoped cr c im.m = .ok s) (he : hasUsmError s.pdu.varbinds = true) :
+    (hx : extractScoped cr c im.m = .ok s) (he : hasUsmError s.pdu = true) :
     ∃ e, processIncoming cr c im = .error e := by
   cases h : processIncoming cr c im with
   | error e => exact ⟨e, rfl⟩
